@@ -11,7 +11,7 @@ import multiprocessing
 import common
 
 ACCS = ["ethos-u55-32", "ethos-u55-64", "ethos-u55-128", "ethos-u55-256", "ethos-u65-256", "ethos-u65-512"]
-PROFILES = ["mixed", "cascade", "weights", "elementwise", "cpu", "cascade_chain", "lut"]
+PROFILES = ["mixed", "cascade", "weights", "elementwise", "cpu", "cascade_chain", "lut", "pattern", "pattern"]
 
 
 def sample_config(rng, profile):
@@ -64,6 +64,10 @@ def make_net(rng, idx, profile):
 
     if profile == "cascade_chain":
         return netgen.cascade_net(rng, idx)
+    if profile == "pattern":
+        return netgen.pattern_net(rng, idx)
+    if profile.startswith("pattern:"):
+        return netgen.pattern_net(rng, idx, profile.split(":", 1)[1])
     if profile == "weird":
         return netgen.weird_net(rng, idx)
     if profile == "known_cascade_s3":
@@ -120,6 +124,17 @@ def _worker(job):
             opts += more_options(rng)
         if profile == "known_cascade_s3":
             opts = ["--accelerator-config", "ethos-u55-128", "--optimise", "Size"]
+        if net.name.endswith(("casc_s2_valid",)) and rng.random() < 0.7:
+            opts = ["--accelerator-config", rng.choice(["ethos-u55-128", "ethos-u55-64", "ethos-u55-256"]), "--optimise", "Size"]
+        if net.name.endswith(("residual", "big_fm_u65")) and rng.random() < 0.6:
+            ini = os.path.join(common.REPO, "ethosu", "config_files", "Arm", "vela.ini")
+            opts = ["--accelerator-config", rng.choice(["ethos-u65-256", "ethos-u65-512"]), "--config", ini,
+                    "--system-config", "Ethos_U65_High_End", "--memory-mode", "Dedicated_Sram", "--optimise", "Performance",
+                    "--arena-cache-size", str(rng.choice([20000, 40000, 100000, 200000, 393216]))]
+            if "more_opts" in want:
+                opts += more_options(rng)
+        if net.name.endswith(("fc1_after_conv", "deep_slices")) and rng.random() < 0.5:
+            opts = ["--accelerator-config", "ethos-u65-512"] + opts[2:]
         data = netgen.serialize(net)
         out.update(desc=net.describe(), opts=opts, src_ops=[o.kind for o in net.ops])
         res = pipeline.compile_net(data, opts, name=f"n{idx}")
